@@ -34,7 +34,9 @@ def probe_tables(names):
         for v in vals:
             sessions.append({"id": len(sessions), "ops": [["set_rules_dir", C.RULES], ["set_preference", key, v]]})
             keys.append(("load", key, v))
-    for v in FLOAT_VALUES:
+    # every value a history can pair with a number-valued name (the generator draws from all pools)
+    all_values = sorted(set(FLOAT_VALUES + BOOL_VALUES + STRING_VALUES + LANG_VALUES + STYLE_VALUES + CODE_VALUES))
+    for v in [x for x in all_values if x.lower() not in ("true", "false")]:
         sessions.append({"id": len(sessions), "ops": [["set_rules_dir", C.RULES], ["set_preference", "Pitch", v], ["get_preference", "Pitch"]]})
         keys.append(("fmt", "Pitch", v))
     out = C.run_harness(sessions)
